@@ -4,6 +4,21 @@ import json
 import sys
 
 
+def add_exact(tree):
+    """number tokens of an input tree get the canonical text of the double they denote ("x"), so that
+    the specification can require values to be preserved exactly"""
+    from fractions import Fraction
+    if tree["t"] == "l":
+        for c in tree["c"]:
+            add_exact(c)
+    elif tree["t"] == "n" and "x" not in tree:
+        if tree.get("txt"):
+            tree["x"] = repr(float(tree["txt"]))
+        else:
+            import layout
+            tree["x"] = repr(float(layout.num_text(tree["v"])))
+
+
 def main():
     driver, fin, fout, opts = sys.argv[1], sys.argv[2], sys.argv[3], json.loads(sys.argv[4])
     if driver == "core":
@@ -25,7 +40,11 @@ def main():
         fn = lambda c: mod.run_case(c, opts)  # noqa: E731
     with open(fin) as f, open(fout, "w") as g:
         for line in f:
-            g.write(json.dumps(fn(json.loads(line))) + "\n")
+            h = fn(json.loads(line))
+            for e in h.get("ev", []):
+                if isinstance(e, dict) and "tree" in e:
+                    add_exact(e["tree"])
+            g.write(json.dumps(h) + "\n")
 
 
 if __name__ == "__main__":
